@@ -60,6 +60,7 @@ def main():
 
     # ---- steps 1-3: translator, build, audit
     gen_ok = build_ok = True
+    leanchecker = "not run (quick tier)"
     gen_msg = build_log = ""
     thms, axioms = [], {}
     forbidden = []
@@ -91,6 +92,13 @@ def main():
                     broken.append(f"audit: #print axioms {t} gave no answer")
                 elif not set(ax) <= common.ALLOWED_AXIOMS:
                     broken.append(f"audit: {t} depends on {sorted(set(ax) - common.ALLOWED_AXIOMS)}")
+            if a.tier == "thorough":
+                # independent re-check of the compiled module (and everything it imports) by leanchecker
+                with common.LakeLock():
+                    rc_lc, out_lc = common.run(["lake", "env", "leanchecker", f"MetapypeModel.Props.{pid}"], cwd=common.LEAN, timeout=3000)
+                leanchecker = "ok" if rc_lc == 0 else "failed"
+                if rc_lc != 0:
+                    broken.append("leanchecker MetapypeModel.Props." + pid + ": " + out_lc[-400:])
         else:
             thms = common.property_theorems(pid)
     else:
@@ -170,7 +178,8 @@ def main():
     cov = {
         "obligations": len(thms),
         "discharged": discharged,
-        "checker_cmd": f"cd lean && lake build MetapypeModel.Props.{pid} driver && lake env lean .lake/audit_{pid}.lean  (#print axioms of every theorem in Props/{pid}.lean)",
+        "checker_cmd": f"cd lean && lake build MetapypeModel.Props.{pid} driver && lake env lean .lake/audit_{pid}.lean  (#print axioms of every theorem in Props/{pid}.lean)"
+                       + (f" && lake env leanchecker MetapypeModel.Props.{pid}" if a.tier == "thorough" else ""),
         "trusted_base": common.TRUSTED_BASE + mod.TRUSTED,
         "theorems": {t: axioms.get(t) for t in thms},
         "evaluations": res.get("evaluations", 0),
@@ -188,6 +197,7 @@ def main():
         "broken": broken,
         "exhaustive": bool(res.get("exhaustive", False)),
         "translator": gen_msg,
+        "leanchecker": leanchecker,
     }
     for opt in ("states", "transitions"):
         if opt in res:
